@@ -476,8 +476,16 @@ package helper
 
 // ---- CSV reader relative to an assumed contract of encoding/csv.Reader (C19, C11) ----------------------------------
 // csvfpr(r): field count fixed by the first record read (-1 before); extrem(r): remaining input (progress measure)
+// ---- one CSV field <-> one struct field (C11, C10, C19): reflect.go, relative to an assumed model of reflect.Value
+// (rkind(v): its kind; rval(v, "Float") ...: the payload its accessors read and its setters write) and to the documented
+// strconv round trips. Writing encodes by kind with exactly the formatter whose parser the reader uses for that kind, with
+// the same base / bit size and the shortest float form ('g', precision -1): so what was written is read back.
+// kinds: Bool 1, Int..Int64 2-6, Uint..Uint64 7-11, Float32/64 13-14, String 24
 //@ func setReflectValue
-//@ trusted reflection (strconv / time parsing of one field): outside the verifier's subset
+//@ ensures[C11,C10,C19] "string-is-taken-as-is" rkind(value) == 24 ==> result == nil && rval(value, "String") == stringValue
+//@ ensures[C11,C10,C19] "signed-round-trip" 2 <= rkind(value) && rkind(value) <= 6 ==> (forall x :: stringValue == uf_Str("str_FormatInt", x, 10) ==> result == nil && rval(value, "Int") == x)
+//@ ensures[C11,C10,C19] "unsigned-round-trip" 7 <= rkind(value) && rkind(value) <= 11 ==> (forall x :: stringValue == uf_Str("str_FormatUint", x, 10) ==> result == nil && rval(value, "Uint") == x)
+//@ ensures[C11,C10,C19] "float-round-trip" 13 <= rkind(value) && rkind(value) <= 14 ==> (forall x real :: stringValue == uf_Str("str_FormatFloat", x, 103, 0 - 1, kindbits(rkind(value))) ==> result == nil && rval(value, "Float") == x)
 
 // columns are mapped by header name: ColumnIndex is the position of the field's header in the header row, -1 if absent
 //@ func Csv.updateColumnIndexes
@@ -510,7 +518,11 @@ package helper
 
 // ---- CSV files: a write replaces the file, an append keeps what is there (C11), relative to os.OpenFile flag semantics
 //@ func getReflectValue
-//@ trusted reflection (strconv / time formatting of one field): outside the verifier's subset
+//@ ensures[C11,C10,C19] "string-as-is" rkind(value) == 24 ==> result1 == nil && result0 == rval(value, "String")
+//@ ensures[C11,C10,C19] "bool" rkind(value) == 1 ==> result1 == nil && result0 == uf_Str("str_FormatBool", rval(value, "Bool"))
+//@ ensures[C11,C10,C19] "signed-decimal" 2 <= rkind(value) && rkind(value) <= 6 ==> result1 == nil && result0 == uf_Str("str_FormatInt", rval(value, "Int"), 10)
+//@ ensures[C11,C10,C19] "unsigned-decimal" 7 <= rkind(value) && rkind(value) <= 11 ==> result1 == nil && result0 == uf_Str("str_FormatUint", rval(value, "Uint"), 10)
+//@ ensures[C11,C10,C19] "shortest-float-that-reads-back" 13 <= rkind(value) && rkind(value) <= 14 ==> result1 == nil && result0 == uf_Str("str_FormatFloat", rval(value, "Float"), 103, 0 - 1, kindbits(rkind(value)))
 
 //@ func Csv.writeHeaderToCsvWriter
 //@ loop#0 invariant len(header) == len(c.columns)
